@@ -26,8 +26,17 @@ res = {d: json.load(open(os.path.join(here, "seeded", d, "result.json"))) for d 
 def cnt(prefix):
     ds = [d for d in ids if d.startswith(prefix)]
     return len(ds), sum(1 for d in ds if res[d]["caught"] and res[d]["concrete_replay"])
+hrows = []
+hd = os.path.join(here, "harmless")
+for i in sorted(os.listdir(hd)) if os.path.isdir(hd) else []:
+    mp, rp = os.path.join(hd, i, "meta.json"), os.path.join(hd, i, "result.json")
+    if not os.path.exists(mp):
+        continue
+    m = json.load(open(mp)); r = json.load(open(rp)) if os.path.exists(rp) else {"class": "not run", "wall_s": 0}
+    hrows.append("| %s | %s | %s | %s (%ss) |" % (i, m["property"], (m.get("summary") or "").replace("|", "/").replace("\n", " ")[:230], r["class"], r["wall_s"]))
+harmless = "| Id | Property | Refactor | `./check <property>` |\n|---|---|---|---|\n" + "\n".join(hrows)
 static = open(os.path.join(here, "design10_static.md")).read()
-s += static.format(rows=rows, fixed=fixed, ptab=ptab, nthm=nthm, loc_all=loc_all, loc_props=loc_props, loc_model=loc_model, loc_gen=loc_gen, seeded=seeded,
+s += static.format(rows=rows, fixed=fixed, ptab=ptab, nthm=nthm, loc_all=loc_all, loc_props=loc_props, loc_model=loc_model, loc_gen=loc_gen, seeded=seeded, harmless=harmless,
                    nR=cnt("R-")[0], cR=cnt("R-")[1], n1=cnt("S-")[0], c1=cnt("S-")[1], n2=cnt("S2-")[0], c2=cnt("S2-")[1], n3=cnt("S3-")[0], c3=cnt("S3-")[1],
                    n4=cnt("S4-")[0], c4=cnt("S4-")[1])
 open(p, "w").write(s)
